@@ -509,9 +509,6 @@ class InterpolatableFunction(ABC):
 
         # Use interpolated values whenever possible
         canInterpolateCondition, fxShape = self._findInterpolatablePoints(x)
-        needsEvaluationCondition = ~canInterpolateCondition
-
-        xEvaluateRegion = x[needsEvaluationCondition]
 
         results = np.empty(fxShape)
         results[canInterpolateCondition] = self._interpolatedDerivatives[order - 1](
@@ -520,14 +517,21 @@ class InterpolatableFunction(ABC):
 
         ## Outside the interpolation region use whatever extrapolation
         ## type the function uses
-        if xEvaluateRegion.size > 0:
-            results[needsEvaluationCondition] = helpers.derivative(
-                self._evaluateOutOfBounds,
-                xEvaluateRegion,
-                n=order,
-                epsilon=epsilon,
-                scale=scale,
-            )
+        ## The finite-difference stencil must stay on the same side of the table as
+        ## the point: _evaluateOutOfBounds is only defined outside the table.
+        for outsideCondition, bounds in (
+            (x < self._rangeMin, (-np.inf, self._rangeMin)),
+            (x > self._rangeMax, (self._rangeMax, np.inf)),
+        ):
+            if np.any(outsideCondition):
+                results[outsideCondition] = helpers.derivative(
+                    self._evaluateOutOfBounds,
+                    x[outsideCondition],
+                    n=order,
+                    epsilon=epsilon,
+                    scale=scale,
+                    bounds=bounds,
+                )
 
         return results
 
